@@ -38,7 +38,8 @@ impl Template {
                     write!(w, "var I=")?;
                     w.function_args("P", |w| {
                         w.expr_stmt(|w| {
-                            write!(w, "if(!S)S=Object.assign({{}}")?;
+                            // (no prototype: `is="constructor"` must not find `Object.prototype.constructor`)
+                            write!(w, "if(!S)S=Object.assign(Object.create(null)")?;
                             for i in self.globals.imports.iter() {
                                 let p = crate::path::resolve(&self.path, &i.src.name);
                                 write!(w, ",(G[{}]||{{}})._", gen_lit_str(&p))?;
